@@ -101,7 +101,62 @@ def compare_message(written, node, where):
     check_fields(c, node.fields, where)
 
 
-def compare_action(written, node, where, order_free=False):
+def _is_library_extra(k):
+    """A plain message of eliot's own (message_type "eliot:...") that carries no program id."""
+    from eliot.parse import WrittenMessage
+    if not isinstance(k, WrittenMessage):
+        return False
+    c = contents_of(k)
+    mt = c.get("message_type")
+    return isinstance(mt, str) and mt.startswith("eliot:") and nid_of(dict(k.as_dict())) is None
+
+
+def _matches(k, w):
+    """Does parsed child ``k`` stand for model child ``w``?  (identity only: kind and program id, or -- for
+    the program's own anonymous tracebacks -- the exception text)"""
+    from eliot.parse import WrittenAction, WrittenMessage
+    if w.kind == "action":
+        if not isinstance(k, WrittenAction):
+            return False
+        if w.nid is None:
+            return True
+        return (nid_of(dict(k.start_message.as_dict())) if k.start_message else None) == w.nid
+    if not isinstance(k, WrittenMessage):
+        return False
+    if w.nid is not None:
+        return nid_of(dict(k.as_dict())) == w.nid
+    if w.tb is not None:
+        c = contents_of(k)
+        return c.get("message_type") == "eliot:traceback" and c.get("reason") == exc_text(w.tb)
+    return nid_of(dict(k.as_dict())) is None
+
+
+def _align_lenient(kids, want, where):
+    """Lenient pairing: messages eliot logs on its own account (reports about its own failures, whatever a
+    later version adds) are not the program's; where they are placed is no business of a property that
+    does not talk about them.  Model nodes standing for such messages (``loose``) are dropped, parsed
+    children that are library messages matching nothing the program did are skipped."""
+    want = [w for w in want if not getattr(w, "loose", False)]
+    pairs = []
+    i = 0
+    for k in kids:
+        if i < len(want) and _matches(k, want[i]):
+            pairs.append((k, want[i]))
+            i += 1
+        elif _is_library_extra(k):
+            continue
+        else:
+            if i < len(want):
+                _misplaced(k, want[i], "%s/%d" % (where, i + 1))
+            raise Violation("duplicated", "%s: parser has %s, the program performed nothing more there" % (
+                where, short(k, 120)))
+    if i < len(want):
+        raise Violation("lost", "%s: %d children performed, only %d of them parsed (next missing: %r)" % (
+            where, len(want), i, want[i]))
+    return pairs
+
+
+def compare_action(written, node, where, order_free=False, lenient=False, fields=True):
     from eliot.parse import WrittenAction, WrittenMessage
     if not isinstance(written, WrittenAction):
         raise Violation("reparented", "%s: expected action nid=%s, parser has %s" % (
@@ -117,7 +172,8 @@ def compare_action(written, node, where, order_free=False):
         raise Violation("status_mismatch", "%s: start status %r" % (where, sc.get("action_status")))
     sc.pop("action_type", None)
     sc.pop("action_status", None)
-    check_fields(sc, node.start, where + " start")
+    if fields:
+        check_fields(sc, node.start, where + " start")
     em = written.end_message
     if node.outcome is None:
         if em is not None:
@@ -135,11 +191,24 @@ def compare_action(written, node, where, order_free=False):
             raise Violation("status_mismatch", "%s: WrittenAction.status %r" % (where, written.status))
         ec.pop("action_type", None)
         ec.pop("action_status", None)
-        check_fields(ec, expected_end_fields(node), where + " end")
+        if fields:
+            check_fields(ec, expected_end_fields(node), where + " end")
     kids = list(written.children)
     want = list(node.children)
+    if lenient:
+        pairs = _align_lenient(kids, want, where)
+        for i, (k, w) in enumerate(pairs):
+            sub = "%s/%d" % (where, i + 1)
+            if w.kind == "action":
+                compare_action(k, w, sub, order_free, lenient, fields)
+            elif fields:
+                compare_message(k, w, sub)
+        return
     if len(kids) != len(want):
         kind = "lost" if len(kids) < len(want) else "duplicated"
+        if len(kids) > len(want) and any(_is_library_extra(k) for k in kids) and \
+                len([k for k in kids if not _is_library_extra(k)]) <= len(want):
+            kind = "extra_library_message"       # a message of eliot's own that the program did not perform
         raise Violation(kind, "%s: %d children parsed, %d performed (%s vs %s)" % (
             where, len(kids), len(want), [short(k, 60) for k in kids], want))
     if order_free:
@@ -156,7 +225,7 @@ def compare_action(written, node, where, order_free=False):
                 if got != w.nid:
                     raise Violation("reordered", "%s: action nid=%s found where nid=%s was performed" % (
                         sub, got, w.nid))
-            compare_action(k, w, sub, order_free)
+            compare_action(k, w, sub, order_free, lenient, fields)
         else:
             if not isinstance(k, WrittenMessage):
                 _misplaced(k, w, sub)
@@ -191,8 +260,13 @@ def _match_unordered(kids, want, where):
     return pairs
 
 
-def check_forest(messages, model, order_free=False, require_complete=True):
-    """Feed decoded messages to the real Parser and compare with the model."""
+def check_forest(messages, model, order_free=False, require_complete=True, lenient=False, fields=True):
+    """Feed decoded messages to the real Parser and compare with the model.
+
+    Strict (default): the parsed forest IS the model forest, node for node, field for field (C01's
+    statement).  ``lenient``: messages eliot logs on its own account may come on top, anywhere, and the
+    model's predictions of such messages are not insisted on; ``fields=False``: only who is whose child, in
+    which order and with which status -- for properties that say nothing about field values."""
     from eliot.parse import Parser, WrittenAction, WrittenMessage
     # 1. accounting by nid
     seen = {}
@@ -233,6 +307,18 @@ def check_forest(messages, model, order_free=False, require_complete=True):
             raise Violation("duplicated", "two parsed tasks for root nid=%s" % key)
         roots[key] = t
     want_roots = [r for r in model.roots]
+    if lenient:
+        want_roots = [r for r in want_roots if not getattr(r, "loose", False)]
+        keep = []
+        for t in anon:
+            r0 = t.root()
+            if isinstance(r0, WrittenMessage) and _is_library_extra(r0) and not any(
+                    n.nid is None and n.tb is not None and _matches(r0, n) for n in want_roots):
+                continue
+            keep.append(t)
+        kept_ids = set(id(t) for t in keep) | set(id(t) for t in roots.values())
+        tasks = [t for t in tasks if id(t) in kept_ids]
+        anon = keep
     if len(tasks) != len(want_roots):
         kind = "lost" if len(tasks) < len(want_roots) else "extra_task"
         raise Violation(kind, "%d tasks parsed, %d top-level actions/messages performed (parsed roots %s)" % (
@@ -258,12 +344,13 @@ def check_forest(messages, model, order_free=False, require_complete=True):
         r = t.root()
         where = "task[nid=%s]" % node.nid
         if node.kind == "action":
-            compare_action(r, node, where, order_free)
+            compare_action(r, node, where, order_free, lenient, fields)
             complete = node.outcome is not None and _all_finished(node)
         else:
             if not isinstance(r, WrittenMessage):
                 raise Violation("reparented", "%s: expected a one-message task" % where)
-            compare_message(r, node, where)
+            if fields:
+                compare_message(r, node, where)
             complete = True
         if require_complete and t.is_complete() != complete:
             raise Violation("completeness", "%s: is_complete()=%s, program finished it: %s" % (
@@ -291,10 +378,14 @@ def _check_one_uuid(written, uuid, where):
             _check_one_uuid(c, uuid, where)
 
 
-def account(messages, model, allow_types=()):
+def account(messages, model, allow_types=(), lenient=False):
     """Exact accounting of message kinds against the model: lost or
-    duplicated start/end/plain messages cannot hide behind the parser."""
+    duplicated start/end/plain messages cannot hide behind the parser.
+    ``lenient``: plain messages are counted by program id only (what eliot logs on its own account is not
+    counted, neither in the log nor in the model)."""
     starts = ends = plain = 0
+    if lenient:
+        messages = [m for m in messages if "action_status" in m or nid_of(m) is not None]
     for m in messages:
         if m.get("message_type") in allow_types and "action_status" not in m:
             continue
@@ -308,7 +399,7 @@ def account(messages, model, allow_types=()):
     acts = model.all_actions()
     want_starts = sum(1 for a in acts if a.started)
     want_ends = sum(1 for a in acts if a.outcome is not None and a.started)
-    want_plain = sum(1 for n in model.all_nodes() if n.kind == "msg")
+    want_plain = sum(1 for n in model.all_nodes() if n.kind == "msg" and not (lenient and n.nid is None))
     if starts != want_starts:
         raise Violation(("start_count", {"dir": "more" if starts > want_starts else "fewer"}),
                         "%d start messages emitted, %d actions started" % (starts, want_starts))
@@ -326,6 +417,12 @@ def canonical_forest(messages):
     from eliot.parse import Parser, WrittenAction
 
     def strip(d):
+        mt = d.get("message_type")
+        at = d.get("action_type")
+        if "nid" not in d and ((isinstance(mt, str) and mt.startswith("eliot:")) or
+                               (isinstance(at, str) and at.startswith("eliot:"))):
+            # eliot's own messages: where they sit is compared, what they say (renderings, ids) is not
+            return canon_fields({k: v for k, v in d.items() if k in ("message_type", "action_type", "action_status")})
         return canon_fields({k: v for k, v in d.items() if k not in META})
 
     def node(n):
